@@ -143,6 +143,34 @@ CLAIMED["C13"] = dict(
     design="DESIGN.md section 3, C13",
 )
 
+CLAIMED["C16"] = dict(
+    category="other",
+    technique="static typestate on the swc AST (mark -> store/clear on all exits incl. exceptional), guard dominance of store sites, single-writer and copy-on-export facts",
+    text=("Decides, for every history of schemaWithContext calls on a shared context (including calls that throw), the "
+          "structural conditions under which no definition can stay unfinished or be overwritten: each "
+          "markDefinitionInProgress(n) is followed by storeDefinition(n) inside a try whose catch/finally clears the mark "
+          "(roles of mark/store/clear are derived from the context class); store sites sit under the not-present-and-not-in-"
+          "progress guard for the same name; the definition table has exactly one writer; exportDefinitions copies; the "
+          "stored body is <target>.schema(ctx). The rule found the leaked mark on exceptions (repaired by a fix: commit)."),
+    note=("Trusted: swc AST. Not decided: equality with a fresh context for synthetic discriminated-variant names (they embed "
+          "a 32-bit hash: collisions are value-level); JS exceptions other than those raised by calls."),
+    design="DESIGN.md section 3, C16",
+)
+
+CLAIMED["C02"] = dict(
+    category="other",
+    technique="static rules on the swc AST of the schema printers: guard/throw agreement, closed keyword and type vocabulary, keyword co-occurrence, $ref-ensure ordering",
+    text=("Decides well-formedness conditions of every schema the printers can build, on all their paths: classes whose "
+          "validator only admits non-JSON values (Date, bigint, Map, Set, typed arrays) have a schema() that always throws; "
+          "every key of every schema object literal is a Draft 2020-12 keyword (plus discriminator) and every literal or "
+          "field-typed `type` lies in the seven JSON Schema type names; prefixItems comes with minItems and pattern is a RegExp "
+          "source (both were violated and repaired by fix: commits); every getRef(n) is preceded by the ensure-definition "
+          "sequence for n."),
+    note=("Trusted: swc AST, the keyword list. Not decided: agreement on documents (required vs optional through "
+          "removeNullUnionBranch, allOf merge, index signatures) - value-level over all documents."),
+    design="DESIGN.md section 3, C02",
+)
+
 NOT_APPLICABLE_REASON = {}
 
 
